@@ -203,7 +203,7 @@ def flp : P String := do
   let v : Verdict := { tag := (if (allActs S).length ≤ 1 then "trivial " else "") ++ "flp" ++ (if addConst then " const" else "") ++ (if C.isEmpty then " nobasis" else "") }
   -- model of the constraint generation vs the LP the library built
   let phi := flpPhi C addConst
-  let v := lpDiff "FactoredLP" v (flpGen S C b addConst) [(phi, 1)] rec
+  let v := lpDiff "FactoredLP" v (flpGenD AITB.Gen.flpEmptyConstDelegates S C b addConst) [(phi, 1)] rec
   match simplex n rows c with
   | .fuel => return "skip simplex_fuel"
   | .infeasible => return "skip flat_lp_without_optimum"       -- cannot happen: φ large is feasible, φ ≥ 0
@@ -249,7 +249,7 @@ def mdp : P String := do
   -- states (`mdpFlatObj`) is decided exactly below and reported as a correspondence clause
   let c := mdpStatedObj h
   -- model: backProject, then the generated LP
-  let gModel := h.map (backProject1 S A ddn)
+  let gModel := h.map (bpModel S A ddn)
   let joined := AITB.Gen.mdpJoinsFinals
   let F := S ++ A
   let stGen := genRun F F.length 1 (mdpSetup S A γ h gModel R)
@@ -301,6 +301,11 @@ def mdp : P String := do
       | none => v
     let objW := dotN n c w
     let v := v.failIf (decide (objW > opt + tol7 * (1 + absQ opt))) s!"LinearProgramming objective_not_minimal{sfx} objective={ratStr objW} flat_optimum={ratStr opt}"
+    -- model of the tail of operator() (g *= γ·v; plusEqual(g, R)) on the library's own weights vs the returned Q, basis by basis
+    let qM := (qModel S A ddn γ h R w).map ofBM
+    let relClose := fun (a b : BasisM) => a.tag == b.tag && a.atag == b.atag && a.vals.length == b.vals.length &&
+      (a.vals.zip b.vals).all (fun (p, q) => closeQ (1 / 10^11) p q || decide (absQ (p - q) ≤ (1 / 10^11) * (1 + maxAbs w)))
+    let v := v.diffIf (qM.length != Q.length || !((qM.zip Q).all (fun (a, b) => relClose a b))) "LinearProgramming.Q model_differs"
     -- Q = R + γ P V at every joint state and action
     let bad := (allActs S).findSome? (fun s => (allActs A).findSome? (fun a =>
       let qv := fmAt S A Q s a
